@@ -53,17 +53,20 @@ func init() {
 			Old: `	if disp := p.updateNonConsDirIngressSegID(); disp != pForward {
 		return disp
 	}
-	if disp := p.verifyCurrentMAC(); disp != pForward {
+	if disp := p.validateHopExpiry(); disp != pForward {`,
+			New: `	if disp := p.validateHopExpiry(); disp != pForward {`,
+			More: []Edit{{File: "router/dataplane.go", Old: `	if disp := p.verifyCurrentMAC(); disp != pForward {
 		return disp
 	}
 	if disp := p.handleIngressRouterAlert(); disp != pForward {`,
-			New: `	if disp := p.verifyCurrentMAC(); disp != pForward {
+				New: `	if disp := p.verifyCurrentMAC(); disp != pForward {
 		return disp
 	}
 	if disp := p.updateNonConsDirIngressSegID(); disp != pForward {
 		return disp
 	}
-	if disp := p.handleIngressRouterAlert(); disp != pForward {`, Expect: "O1-update-before-verify"},
+	if disp := p.handleIngressRouterAlert(); disp != pForward {`}},
+			Expect: "O1-update-before-verify"},
 		Mutant{Prop: "C22", Name: "beta-includes-index-entry", File: "private/path/combinator/graph.go",
 			Old: `	for i := range index {
 		hop := se.segment.ASEntries[i].HopEntry`, New: `	for i := range index + 1 {
